@@ -80,6 +80,10 @@ def cases(draw, tier):
             o["type"] = spec
             o["value"] = tg._draw_value(draw, spec, cfg)
         o["w"] = draw(assign.op_specs)
+        if draw(st.integers(0, 5)) == 0:
+            # placed by the caller at an explicit offset inside free space (documented: "if offset is provided by the
+            # user we assume that we can write there"); such an object is not protected from later allocations
+            o["at"] = "free"
         objs.append(o)
     return {"bufs": bufs, "objs": objs, "proto": draw(st.sampled_from([2, 3, 4, 5, 5])), "fresh": draw(st.integers(0, 19)) == 0}
 
@@ -147,15 +151,43 @@ def build_types(case, modname):
     return built
 
 
+def free_placed(case):
+    """indices of the objects honoured as 'placed at an explicit offset in free space': the first such object per
+    buffer, reference-free (its construction must not allocate), constructed after everything else"""
+    seen, out = set(), set()
+    for i, o in enumerate(case["objs"]):
+        if o.get("at") != "free" or o["buf"] in seen:
+            continue
+        sp = hybgen.to_typespec(o["h"]) if o["kind"] == "hybrid" else o["type"]
+        if tg.has_refs(sp):
+            continue
+        seen.add(o["buf"])
+        out.add(i)
+    return out
+
+
 def construct_all(case, built, bufs):
-    objs = []
-    for o, b in zip(case["objs"], built):
+    objs = [None] * len(built)
+    fp = free_placed(case)
+    order = [i for i in range(len(built)) if i not in fp] + sorted(fp)
+    for i in order:
+        o, b = case["objs"][i], built[i]
         buf = bufs[o["buf"]]
+        extra = {}
+        if i in fp:
+            if o["kind"] == "hybrid":
+                probe = b.cls(**hybgen.init_kwargs(b, o["value"]))._xobject
+            else:
+                probe = mat.construct(b, o["value"], mat.Forms([0]), mat.Env(None, None))
+            size = int(probe._size)
+            off = buf.allocate(size + 16)
+            buf.free(off, size + 16)
+            extra["_offset"] = off + 8
         if o["kind"] == "hybrid":
             kw = hybgen.init_kwargs(b, o["value"])
-            objs.append(b.cls(**kw, _buffer=buf))
+            objs[i] = b.cls(**kw, _buffer=buf, **extra)
         else:
-            objs.append(mat.construct(b, o["value"], mat.Forms([0]), mat.Env(buf, buf.context), _buffer=buf))
+            objs[i] = mat.construct(b, o["value"], mat.Forms([0]), mat.Env(buf, buf.context), _buffer=buf, **extra)
     return objs
 
 
@@ -212,6 +244,9 @@ def _run(case, modname):
         if any(op[0] == "f" for op in b["pre"]) and any(op[0] == "a" for op in b["pre"]):
             labels.add("prehistory_frees")
     labels.add(f"proto_{case['proto']}")
+    fp = free_placed(case)
+    if fp:
+        labels.add("object_at_explicit_offset_in_free_space")
 
     bufs = sut(make_buffers, case)
     if is_raised(bufs):
@@ -314,7 +349,7 @@ def _run(case, modname):
             if not is_raised(b0) and int(a) != int(b0):
                 return fail("allocator_diverges", f"buffer {k}: allocate({size}, {al}) gave {a} on the unpickled buffer, {b0} on the original", "", labels)
             for i, o in enumerate(case["objs"]):
-                if o["buf"] == k:
+                if o["buf"] == k and i not in fp:
                     lo, hi = extent(o, objs2[i])
                     if int(a) < hi and lo < int(a) + size:
                         return fail("allocation_overlaps_object", f"buffer {k}: allocate({size}) = {a} overlaps unpickled object {i} at [{lo},{hi})", "", labels)
@@ -328,11 +363,13 @@ def _run(case, modname):
         return fail("construct_in_unpickled_buffer_raised", f"{extra}", extra.key, labels)
     lo, hi = extent(o0, extra)
     for i, o in enumerate(case["objs"]):
-        if xobj(o, objs2[i])._buffer is nb:
+        if xobj(o, objs2[i])._buffer is nb and i not in fp:
             l2, h2 = extent(o, objs2[i])
             if lo < h2 and l2 < hi:
                 return fail("new_object_overlaps", f"object constructed in the unpickled buffer at [{lo},{hi}) overlaps unpickled object {i} at [{l2},{h2})", "", labels)
     for i, (o, b, x) in enumerate(zip(case["objs"], built, objs2)):
+        if i in fp:
+            continue
         g = sut(read, o, b, x)
         if is_raised(g) or tg.first_diff(spec_of(o, b), exps[i], g):
             return fail("unpickled_changed_by_allocation", f"object {i}: {g if is_raised(g) else tg.first_diff(spec_of(o, b), exps[i], g)}", "", labels)
